@@ -115,7 +115,7 @@ for typ, recv, methods, getters in (("recVFS", "p", VFS, GETTERS_V), ("recFile",
             if name == "SetIdm":
                 w("\tr0 := %s\n\tp.rec.log(p.id, \"SetIdm\", []string{wrIdmTok(a0)}, wrAnsOf(\"u\", r0, -1))\n\treturn r0\n}\n" % call)
             elif name == "SetUser":
-                w("\tr0 := %s\n\tp.rec.log(p.id, \"SetUser\", []string{wrTokS(a0.Name())}, wrAnsOf(\"u\", r0, -1))\n\treturn r0\n}\n" % call)
+                w("\tr0 := %s\n\tp.rec.log(p.id, \"SetUser\", []string{\"_\"}, wrAnsOf(\"u\", r0, -1))\n\treturn r0\n}\n" % call)
             elif name == "WalkDir":
                 w("\tvar seen []string\n\tr0 := p.b.WalkDir(a0, func(path string, d fs.DirEntry, err error) error {\n\t\tseen = append(seen, path)\n\t\treturn a1(path, d, err)\n\t})")
                 w("\tp.rec.log(p.id, \"WalkDir\", []string{wrTokS(a0)}, wrAnsOf(wrValNames(seen), r0, -1))\n\treturn r0\n}\n")
